@@ -338,6 +338,7 @@ func C20(p *core.Program, r *core.Report) {
 	// matcher patterns (constants, compiled here) are asked about tokens without CJK/Hangul
 	// characters: every blank-separated matcher must count the same.
 	checkCountersAgree(p, r, "F9")
+	checkCounterChosenFromWholeText(p, r, "F10")
 
 	// ---- F4: "below a table" means below a table at any depth: the ancestor test climbs until
 	// there is no parent left and answers true only for a matching ancestor
@@ -496,6 +497,64 @@ func checkTwoPassSkeleton(p *core.Program, r *core.Report, rule string) {
 		},
 	}
 	core.CheckDecisionList(r, rule, "ExtractContent", paths, atoms, spec)
+}
+
+// checkCounterChosenFromWholeText (C20-F10, C09-W8): the counter that feeds the 500-word
+// comparison is chosen by testing the text for CJK/Hangul characters. The choice is only the
+// right one for the text that is counted if the test sees all of it: every pattern test in
+// SelectWordCounter is on the parameter itself (not a prefix, a sample or a transformed copy),
+// and the extractor hands it a text of the document, not a part of one.
+func checkCounterChosenFromWholeText(p *core.Program, r *core.Report, rule string) {
+	c := core.NewCanon(p)
+	fn := mustInl(p, r, rule, "mod/internal/stringutil.SelectWordCounter")
+	if fn == nil {
+		return
+	}
+	n, bad := 0, []string{}
+	for _, call := range core.Calls(fn, func(ci ssa.CallInstruction) bool {
+		return core.IsCallTo(ci, "(*regexp.Regexp).MatchString", "(*regexp.Regexp).FindString", "(*regexp.Regexp).FindStringIndex", "strings.ContainsFunc", "strings.IndexFunc", "strings.ContainsAny")
+	}) {
+		args := call.Common().Args
+		subj := args[len(args)-1]
+		if core.IsCallTo(call, "strings.ContainsFunc", "strings.IndexFunc", "strings.ContainsAny") {
+			subj = args[0]
+		}
+		n++
+		if s := c.Of(subj); s != "$0" {
+			bad = append(bad, p.Pos(call.Pos())+": tests "+shortVal(s))
+		}
+	}
+	r.Add(rule, "SelectWordCounter tests the whole text it is given", p.Pos(fn.Pos()), n >= 1 && len(bad) == 0, fmt.Sprintf("%d script tests; not on the parameter itself: %v", n, bad))
+	// the caller: the text is a text rendering of the document element the extractor works on
+	nc, badc := 0, []string{}
+	for _, f := range p.ModFunctions(false) {
+		if core.FnPkgPath(f) != core.ExpandKey("mod/internal/extractor") {
+			continue
+		}
+		for _, call := range core.Calls(f, func(ci ssa.CallInstruction) bool { return core.IsCallTo(ci, "mod/internal/stringutil.SelectWordCounter") }) {
+			nc++
+			arg := call.Common().Args[0]
+			tc, ok := arg.(*ssa.Call)
+			if ok {
+				ok = core.IsCallTo(tc, "github.com/go-shiori/dom.TextContent", "github.com/go-shiori/dom.InnerText", "mod/internal/domutil.InnerText")
+			}
+			if ok {
+				// of the very node that becomes the extractor's documentElement
+				ok = false
+				for _, in := range instrsOf(f) {
+					if st, isSt := in.(*ssa.Store); isSt {
+						if fa, isFA := st.Addr.(*ssa.FieldAddr); isFA && core.FieldNameOf(fa) == "documentElement" && st.Val == tc.Call.Args[0] {
+							ok = true
+						}
+					}
+				}
+			}
+			if !ok {
+				badc = append(badc, p.Pos(call.Pos())+": "+shortVal(c.Of(arg)))
+			}
+		}
+	}
+	r.Add(rule, "the counter is chosen from the text of the whole document element", "", nc >= 1 && len(badc) == 0, fmt.Sprintf("%d selections in the extractor; from something else: %v", nc, badc))
 }
 
 func checkCountersAgree(p *core.Program, r *core.Report, rule string) {
